@@ -684,8 +684,37 @@ def check_weights_learnt_between_generations(h: Harness):
         h.seen(f"learnt:{trial}:{name}", nontrivial=True)
 
 
+def check_simplegp_problems(h: Harness):
+    """the problem the SimpleGP wrapper builds from a fitness function and a `minimize` given as a bool, as a list of one, or as a
+    longer list: the aggregate is the value when maximising, its negation when minimising, the signed sum for several objectives"""
+    from geml.simplegp import SimpleGP
+    for minimize in (False, True, [False], [True], [False, True], [True, True], [False, False, True]):
+        k = len(minimize) if isinstance(minimize, list) else 1
+        mins = minimize if isinstance(minimize, list) else [minimize]
+        for comps in ([2.0, 5.0, 1.0], [0.0, 3.0, 4.0], [-1.5, 2.0, 7.0]):
+            vals = comps[:k]
+
+            def ff(p, vals=vals, as_list=isinstance(minimize, list)):
+                return list(vals) if as_list else vals[0]
+            try:
+                problem = SimpleGP.process_problem(None, ff, minimize)
+                f = problem.evaluate("program")
+            except Exception as e:  # noqa: BLE001
+                h.fail("SimpleGP.process_problem", "raises", f"SimpleGP.process_problem(fitness_function, minimize={minimize}) / evaluate raised {type(e).__name__}: {e}", [str(minimize)])
+                break
+            want = sum(-v if m else v for v, m in zip(vals, mins))
+            h.count("simplegp-problems")
+            h.seen(f"simplegp-problem:{minimize}:{vals}", nontrivial=True)
+            if [float(c) for c in f.fitness_components] != vals or float(f.maximizing_aggregate) != want:
+                h.fail("SimpleGP.process_problem", "wrong-direction",
+                       f"the problem SimpleGP builds for minimize={minimize} records components {list(f.fitness_components)} and the maximising aggregate "
+                       f"{f.maximizing_aggregate} for the fitness value(s) {vals}; the declared directions give {want}", [str(minimize), vals])
+                break
+
+
 def run(h: Harness):
     check_unnumbered_objectives(h)
+    check_simplegp_problems(h)
     check_weights_learnt_between_generations(h)
     check_real_representations(h)
     check_aggregate(h)
